@@ -1,22 +1,1049 @@
 package eng
 
-import "go/types"
+import (
+	"fmt"
+	"go/types"
+	"reflect"
+)
 
-// RV models reflect.Value.
+// RV models reflect.Value. The zero RV (T == nil) is the invalid Value. RVs are immutable.
 type RV struct {
 	T    types.Type
-	V    Value // direct value when !Addr
-	P    Ptr   // location when Addr/indirect
-	Addr bool
-	RO   bool
-	id   int
+	V    Value // direct value when !Ind
+	P    Ptr   // location of the value when Ind
+	Ind  bool  // value lives at P
+	Addr bool  // addressable (CanAddr, Set allowed)
+	RO   bool  // obtained through an unexported field
 }
 
+// RType models *reflect.rtype (the dynamic type behind reflect.Type).
 type RType struct{ T types.Type }
 
-func registerReflect(reg func(string, func(*Interp, []Value) Value)) {}
+func (ip *Interp) rtypeIface(t types.Type) Value {
+	if t == nil {
+		return Iface{}
+	}
+	return Iface{T: ip.P.rtypePtr, V: RType{T: t}}
+}
+
+func kindOf(t types.Type) reflect.Kind {
+	if t == nil {
+		return reflect.Invalid
+	}
+	switch u := t.Underlying().(type) {
+	case *types.Basic:
+		switch u.Kind() {
+		case types.Bool, types.UntypedBool:
+			return reflect.Bool
+		case types.Int, types.UntypedInt:
+			return reflect.Int
+		case types.Int8:
+			return reflect.Int8
+		case types.Int16:
+			return reflect.Int16
+		case types.Int32, types.UntypedRune:
+			return reflect.Int32
+		case types.Int64:
+			return reflect.Int64
+		case types.Uint:
+			return reflect.Uint
+		case types.Uint8:
+			return reflect.Uint8
+		case types.Uint16:
+			return reflect.Uint16
+		case types.Uint32:
+			return reflect.Uint32
+		case types.Uint64:
+			return reflect.Uint64
+		case types.Uintptr:
+			return reflect.Uintptr
+		case types.Float32:
+			return reflect.Float32
+		case types.Float64, types.UntypedFloat:
+			return reflect.Float64
+		case types.Complex64:
+			return reflect.Complex64
+		case types.Complex128:
+			return reflect.Complex128
+		case types.String, types.UntypedString:
+			return reflect.String
+		case types.UnsafePointer:
+			return reflect.UnsafePointer
+		}
+	case *types.Array:
+		return reflect.Array
+	case *types.Chan:
+		return reflect.Chan
+	case *types.Signature:
+		return reflect.Func
+	case *types.Interface:
+		return reflect.Interface
+	case *types.Map:
+		return reflect.Map
+	case *types.Pointer:
+		return reflect.Pointer
+	case *types.Slice:
+		return reflect.Slice
+	case *types.Struct:
+		return reflect.Struct
+	}
+	return reflect.Invalid
+}
+
+func (rv *RV) kind() reflect.Kind { return kindOf(rv.T) }
+
+func (ip *Interp) rvVal(rv *RV) Value {
+	if rv.Ind {
+		return copyVal(*rv.P.C)
+	}
+	return rv.V
+}
+
+func (ip *Interp) rvPanic(method string, rv *RV) {
+	k := rv.kind()
+	if k == reflect.Invalid {
+		ip.rtPanicV("reflect: call of " + method + " on zero Value")
+	}
+	ip.rtPanicV("reflect: call of " + method + " on " + k.String() + " Value")
+}
+
+// rtPanicV raises a target panic whose value is a *reflect.ValueError-like string.
+func (ip *Interp) rtPanicV(msg string) {
+	site := ip.curFnName()
+	// attribute the panic to the nearest repo function on the stack
+	for i := len(ip.stack) - 1; i >= 0; i-- {
+		site = ip.stack[i].String()
+		break
+	}
+	panic(&targetPanic{V: Iface{T: types.Typ[types.String], V: MkStr(msg)}, Site: site, Msg: msg})
+}
+
+func (ip *Interp) asRV(v Value) *RV {
+	rv, ok := v.(*RV)
+	if !ok {
+		ip.unsupported("expected reflect.Value, got %T", v)
+	}
+	return rv
+}
+
+func (ip *Interp) mustBeExported(method string, rv *RV) {
+	if rv.T == nil {
+		ip.rtPanicV("reflect: call of " + method + " on zero Value")
+	}
+	if rv.RO {
+		ip.rtPanicV("reflect: " + method + " using value obtained using unexported field")
+	}
+}
+
+func (ip *Interp) mustBeAssignable(method string, rv *RV) {
+	if rv.T == nil {
+		ip.rtPanicV("reflect: call of " + method + " on zero Value")
+	}
+	if rv.RO {
+		ip.rtPanicV("reflect: " + method + " using value obtained using unexported field")
+	}
+	if !rv.Addr {
+		ip.rtPanicV("reflect: " + method + " using unaddressable value")
+	}
+}
+
+// assignTo converts x for storing into a location of type dst (wrapping into interfaces).
+func (ip *Interp) assignTo(ctx string, x *RV, dst types.Type) Value {
+	v := ip.rvVal(x)
+	if types.Identical(x.T, dst) {
+		return v
+	}
+	if _, ok := dst.Underlying().(*types.Interface); ok {
+		if _, isI := x.T.Underlying().(*types.Interface); isI {
+			return v // interface to interface
+		}
+		if !ip.implementsT(x.T, dst) {
+			ip.rtPanicV(ctx + ": value of type " + typeString(x.T) + " is not assignable to type " + typeString(dst))
+		}
+		return Iface{T: x.T, V: v}
+	}
+	if types.AssignableTo(x.T, dst) {
+		return v
+	}
+	ip.rtPanicV(ctx + ": value of type " + typeString(x.T) + " is not assignable to type " + typeString(dst))
+	return nil
+}
+
+func (ip *Interp) implementsT(t types.Type, dst types.Type) bool {
+	i, ok := dst.Underlying().(*types.Interface)
+	if !ok {
+		return false
+	}
+	return ip.implements(t, i)
+}
+
+func (ip *Interp) rvLen(method string, rv *RV) int {
+	v := ip.rvVal(rv)
+	switch rv.kind() {
+	case reflect.Slice:
+		return len(v.(Slice).A)
+	case reflect.Array:
+		return len(v.(Array))
+	case reflect.String:
+		return v.(Str).Len()
+	case reflect.Map:
+		m, _ := v.(*Map)
+		if m == nil {
+			return 0
+		}
+		return len(m.Keys)
+	case reflect.Pointer:
+		if at, ok := rv.T.Underlying().(*types.Pointer).Elem().Underlying().(*types.Array); ok {
+			return int(at.Len())
+		}
+	}
+	ip.rvPanic(method, rv)
+	return 0
+}
+
+func (ip *Interp) rvIndex(rv *RV, iv Value) *RV {
+	switch rv.kind() {
+	case reflect.Slice:
+		s := ip.rvVal(rv).(Slice)
+		it := ip.term(iv)
+		var i int64
+		if it.IsConst() {
+			i = it.Int()
+			if i < 0 || i >= int64(len(s.A)) {
+				ip.rtPanicV("reflect: slice index out of range")
+			}
+		} else {
+			if !ip.condT(ip.TC.ULt(it, Const(SBV64, uint64(len(s.A))))) {
+				ip.rtPanicV("reflect: slice index out of range")
+			}
+			i = ip.W.ConcretizeRange(it, 0, int64(len(s.A)-1))
+		}
+		et := rv.T.Underlying().(*types.Slice).Elem()
+		return &RV{T: et, P: Ptr{C: &s.A[i], O: s.O}, Ind: true, Addr: true, RO: rv.RO}
+	case reflect.Array:
+		et := rv.T.Underlying().(*types.Array).Elem()
+		i := ip.concInt(iv, 0, 64)
+		if rv.Ind {
+			a := (*rv.P.C).(Array)
+			if i < 0 || i >= int64(len(a)) {
+				ip.rtPanicV("reflect: array index out of range")
+			}
+			return &RV{T: et, P: Ptr{C: &a[i], O: rv.P.O}, Ind: true, Addr: rv.Addr, RO: rv.RO}
+		}
+		a := rv.V.(Array)
+		if i < 0 || i >= int64(len(a)) {
+			ip.rtPanicV("reflect: array index out of range")
+		}
+		return &RV{T: et, V: copyVal(a[i]), RO: rv.RO}
+	case reflect.String:
+		s := ip.rvVal(rv).(Str)
+		i := ip.concInt(iv, 0, int64(s.Len()))
+		if i < 0 || i >= int64(s.Len()) {
+			ip.rtPanicV("reflect: string index out of range")
+		}
+		return &RV{T: types.Typ[types.Uint8], V: s.At(int(i)), RO: rv.RO}
+	}
+	ip.rvPanic("reflect.Value.Index", rv)
+	return nil
+}
+
+func (ip *Interp) rvElem(rv *RV) *RV {
+	switch rv.kind() {
+	case reflect.Interface:
+		iv, _ := ip.rvVal(rv).(Iface)
+		if iv.T == nil {
+			return &RV{}
+		}
+		return &RV{T: iv.T, V: iv.V, RO: rv.RO}
+	case reflect.Pointer:
+		p := ip.toPtr(ip.rvVal(rv))
+		if p.C == nil {
+			return &RV{}
+		}
+		return &RV{T: rv.T.Underlying().(*types.Pointer).Elem(), P: p, Ind: true, Addr: true, RO: rv.RO}
+	}
+	ip.rvPanic("reflect.Value.Elem", rv)
+	return nil
+}
+
+func (ip *Interp) rvInterface(method string, rv *RV) Value {
+	if rv.T == nil {
+		ip.rtPanicV("reflect: call of " + method + " on zero Value")
+	}
+	if rv.RO {
+		ip.rtPanicV("reflect." + "Value.Interface: cannot return value obtained from unexported field or method")
+	}
+	v := ip.rvVal(rv)
+	if rv.kind() == reflect.Interface {
+		if iv, ok := v.(Iface); ok {
+			return iv
+		}
+	}
+	return Iface{T: rv.T, V: v}
+}
+
+func (ip *Interp) rvIsNil(rv *RV) *Term {
+	v := ip.rvVal(rv)
+	switch rv.kind() {
+	case reflect.Chan:
+		return tTrue
+	case reflect.Func:
+		switch f := v.(type) {
+		case *Closure:
+			return Bool(f == nil)
+		default:
+			return Bool(f == nil)
+		}
+	case reflect.Map:
+		m, _ := v.(*Map)
+		return Bool(m == nil)
+	case reflect.Pointer, reflect.UnsafePointer:
+		return Bool(ip.toPtr(v).C == nil)
+	case reflect.Interface:
+		iv, _ := v.(Iface)
+		return Bool(iv.T == nil)
+	case reflect.Slice:
+		return Bool(v.(Slice).A == nil)
+	}
+	ip.rvPanic("reflect.Value.IsNil", rv)
+	return nil
+}
+
+func (ip *Interp) rvField(rv *RV, i int) *RV {
+	if rv.kind() != reflect.Struct {
+		ip.rvPanic("reflect.Value.Field", rv)
+	}
+	if isReflectValue(rv.T) {
+		// fields of reflect.Value itself are unexported
+		if i < 0 || i >= 3 {
+			ip.rtPanicV("reflect: Field index out of range")
+		}
+		return &RV{T: types.Typ[types.Uintptr], V: Const(SBV64, 0), RO: true}
+	}
+	st := rv.T.Underlying().(*types.Struct)
+	if i < 0 || i >= st.NumFields() {
+		ip.rtPanicV("reflect: Field index out of range")
+	}
+	f := st.Field(i)
+	ro := rv.RO || !f.Exported()
+	if rv.Ind {
+		s := (*rv.P.C).(Struct)
+		return &RV{T: f.Type(), P: Ptr{C: &s[i], O: rv.P.O}, Ind: true, Addr: rv.Addr, RO: ro}
+	}
+	s, ok := rv.V.(Struct)
+	if !ok {
+		ip.unsupported("reflect Field on %T", rv.V)
+	}
+	return &RV{T: f.Type(), V: copyVal(s[i]), RO: ro}
+}
+
+func (ip *Interp) rvNumField(rv *RV) int {
+	if rv.kind() != reflect.Struct {
+		ip.rvPanic("reflect.Value.NumField", rv)
+	}
+	if isReflectValue(rv.T) {
+		return 3
+	}
+	return rv.T.Underlying().(*types.Struct).NumFields()
+}
 
 func (ip *Interp) rvStructEq(a, b *RV) *Term {
-	ip.unsupported("reflect.Value comparison")
-	return nil
+	if a.T == nil || b.T == nil {
+		return Bool(a.T == nil && b.T == nil)
+	}
+	if a == b {
+		return tTrue
+	}
+	if !types.Identical(a.T, b.T) || a.Ind != b.Ind || a.Addr != b.Addr || a.RO != b.RO {
+		return tFalse
+	}
+	if a.Ind {
+		return Bool(a.P.C == b.P.C)
+	}
+	switch a.kind() {
+	case reflect.Pointer, reflect.UnsafePointer, reflect.Map, reflect.Func, reflect.Chan:
+		return ip.equals(nil, a.V, b.V)
+	}
+	// boxed copies: identical only if they are the same box; not tracked -> different
+	return tFalse
+}
+
+func (ip *Interp) rvSlice(vals []*RV) Value {
+	a := make([]Value, len(vals))
+	for i, v := range vals {
+		a[i] = v
+	}
+	return Slice{A: a, O: ip.newObj(ip.P.reflectValueT, "reflect")}
+}
+
+func (ip *Interp) rtypeOf(v Value) types.Type {
+	iv, ok := v.(Iface)
+	if !ok || iv.T == nil {
+		ip.rtPanicV("reflect: nil Type")
+	}
+	rt, ok := iv.V.(RType)
+	if !ok {
+		ip.unsupported("reflect.Type backed by %T", iv.V)
+	}
+	return rt.T
+}
+
+func (ip *Interp) deepEqual(t types.Type, a, b Value, depth int) *Term {
+	tc := ip.TC
+	if depth > 50 {
+		ip.unsupported("DeepEqual recursion")
+	}
+	switch x := a.(type) {
+	case Iface:
+		y, ok := b.(Iface)
+		if !ok {
+			return tFalse
+		}
+		if x.T == nil || y.T == nil {
+			return Bool(x.T == nil && y.T == nil)
+		}
+		if !types.Identical(x.T, y.T) {
+			return tFalse
+		}
+		return ip.deepEqual(x.T, x.V, y.V, depth+1)
+	case *Term:
+		y := b.(*Term)
+		return tc.Eq(x, y)
+	case Str:
+		return ip.strEq(x, b.(Str))
+	case Slice:
+		y := b.(Slice)
+		if (x.A == nil) != (y.A == nil) {
+			return tFalse
+		}
+		if len(x.A) != len(y.A) {
+			return tFalse
+		}
+		if len(x.A) > 0 && &x.A[0] == &y.A[0] {
+			return tTrue
+		}
+		var et types.Type
+		if t != nil {
+			if st, ok := t.Underlying().(*types.Slice); ok {
+				et = st.Elem()
+			}
+		}
+		r := tTrue
+		for i := range x.A {
+			r = tc.And(r, ip.deepEqual(et, x.A[i], y.A[i], depth+1))
+			if r == tFalse {
+				return r
+			}
+		}
+		return r
+	case Array:
+		y := b.(Array)
+		r := tTrue
+		for i := range x {
+			r = tc.And(r, ip.deepEqual(nil, x[i], y[i], depth+1))
+		}
+		return r
+	case *Map:
+		y, _ := b.(*Map)
+		if (x == nil) != (y == nil) {
+			return tFalse
+		}
+		if x == nil {
+			return tTrue
+		}
+		if len(x.Keys) != len(y.Keys) {
+			return tFalse
+		}
+		if x == y {
+			return tTrue
+		}
+		r := tTrue
+		for i, k := range x.Keys {
+			v2, ok := ip.mapGet(y, k)
+			if !ok {
+				return tFalse
+			}
+			r = tc.And(r, ip.deepEqual(x.VT, x.Vals[i], v2, depth+1))
+			if r == tFalse {
+				return r
+			}
+		}
+		return r
+	case Struct:
+		y := b.(Struct)
+		r := tTrue
+		var st *types.Struct
+		if t != nil {
+			st, _ = t.Underlying().(*types.Struct)
+		}
+		for i := range x {
+			var ft types.Type
+			if st != nil {
+				ft = st.Field(i).Type()
+			}
+			r = tc.And(r, ip.deepEqual(ft, x[i], y[i], depth+1))
+		}
+		return r
+	case Ptr:
+		y := ip.toPtr(b)
+		if x.C == nil || y.C == nil {
+			return Bool(x.C == nil && y.C == nil)
+		}
+		if x.C == y.C {
+			return tTrue
+		}
+		var et types.Type
+		if t != nil {
+			if pt, ok := t.Underlying().(*types.Pointer); ok {
+				et = pt.Elem()
+			}
+		}
+		return ip.deepEqual(et, *x.C, *y.C, depth+1)
+	case *Closure:
+		y, ok := b.(*Closure)
+		return Bool(x == nil && ok && y == nil)
+	case *RV:
+		// reflect.Value is a struct: DeepEqual compares its fields deeply
+		return ip.rvStructEq(x, b.(*RV))
+	}
+	return ip.equals(t, a, b)
+}
+
+func registerReflect(reg func(string, func(*Interp, []Value) Value)) {
+	kindTerm := func(k reflect.Kind) *Term { return Const(SBV64, uint64(k)) }
+
+	valueOf := func(ip *Interp, a []Value) Value {
+		iv, ok := a[0].(Iface)
+		if !ok || iv.T == nil {
+			return &RV{}
+		}
+		return &RV{T: iv.T, V: iv.V}
+	}
+	reg("reflect.ValueOf", valueOf)
+	reg("internal/reflectlite.ValueOf", valueOf)
+	reg("reflect.TypeOf", func(ip *Interp, a []Value) Value {
+		iv, _ := a[0].(Iface)
+		return ip.rtypeIface(iv.T)
+	})
+	reg("(reflect.Value).IsValid", func(ip *Interp, a []Value) Value { return Bool(ip.asRV(a[0]).T != nil) })
+	reg("(reflect.Value).Kind", func(ip *Interp, a []Value) Value { return kindTerm(ip.asRV(a[0]).kind()) })
+	reg("(reflect.Value).Type", func(ip *Interp, a []Value) Value {
+		rv := ip.asRV(a[0])
+		if rv.T == nil {
+			ip.rtPanicV("reflect: call of reflect.Value.Type on zero Value")
+		}
+		return ip.rtypeIface(rv.T)
+	})
+	lenFn := func(ip *Interp, a []Value) Value {
+		return i64(int64(ip.rvLen("reflect.Value.Len", ip.asRV(a[0]))))
+	}
+	reg("(reflect.Value).Len", lenFn)
+	reg("(internal/reflectlite.Value).Len", lenFn)
+	reg("(reflect.Value).Index", func(ip *Interp, a []Value) Value { return ip.rvIndex(ip.asRV(a[0]), a[1]) })
+	reg("(reflect.Value).Elem", func(ip *Interp, a []Value) Value { return ip.rvElem(ip.asRV(a[0])) })
+	reg("(reflect.Value).Interface", func(ip *Interp, a []Value) Value {
+		return ip.rvInterface("reflect.Value.Interface", ip.asRV(a[0]))
+	})
+	reg("(reflect.Value).CanInterface", func(ip *Interp, a []Value) Value {
+		rv := ip.asRV(a[0])
+		if rv.T == nil {
+			ip.rtPanicV("reflect: call of reflect.Value.CanInterface on zero Value")
+		}
+		return Bool(!rv.RO)
+	})
+	reg("(reflect.Value).CanAddr", func(ip *Interp, a []Value) Value { return Bool(ip.asRV(a[0]).Addr) })
+	reg("(reflect.Value).CanSet", func(ip *Interp, a []Value) Value {
+		rv := ip.asRV(a[0])
+		return Bool(rv.Addr && !rv.RO)
+	})
+	reg("(reflect.Value).Addr", func(ip *Interp, a []Value) Value {
+		rv := ip.asRV(a[0])
+		if !rv.Addr {
+			ip.rtPanicV("reflect.Value.Addr of unaddressable value")
+		}
+		return &RV{T: types.NewPointer(rv.T), V: rv.P, RO: rv.RO}
+	})
+	reg("(reflect.Value).IsNil", func(ip *Interp, a []Value) Value { return ip.rvIsNil(ip.asRV(a[0])) })
+	reg("(reflect.Value).MapIndex", func(ip *Interp, a []Value) Value {
+		rv, k := ip.asRV(a[0]), ip.asRV(a[1])
+		if rv.kind() != reflect.Map {
+			ip.rvPanic("reflect.Value.MapIndex", rv)
+		}
+		mt := rv.T.Underlying().(*types.Map)
+		if k.T == nil {
+			ip.rtPanicV("reflect: call of reflect.Value.MapIndex on zero Value")
+		}
+		key := ip.assignTo("reflect.Value.MapIndex", k, mt.Key())
+		m, _ := ip.rvVal(rv).(*Map)
+		v, ok := ip.mapGet(m, key)
+		if !ok {
+			return &RV{}
+		}
+		return &RV{T: mt.Elem(), V: copyVal(v), RO: rv.RO || k.RO}
+	})
+	reg("(reflect.Value).MapKeys", func(ip *Interp, a []Value) Value {
+		rv := ip.asRV(a[0])
+		if rv.kind() != reflect.Map {
+			ip.rvPanic("reflect.Value.MapKeys", rv)
+		}
+		mt := rv.T.Underlying().(*types.Map)
+		m, _ := ip.rvVal(rv).(*Map)
+		var out []*RV
+		if m != nil {
+			ord := ip.W.mapOrder(len(m.Keys))
+			for _, i := range ord {
+				out = append(out, &RV{T: mt.Key(), V: copyVal(m.Keys[i]), RO: rv.RO})
+			}
+		}
+		return ip.rvSlice(out)
+	})
+	reg("(reflect.Value).SetMapIndex", func(ip *Interp, a []Value) Value {
+		rv, k, e := ip.asRV(a[0]), ip.asRV(a[1]), ip.asRV(a[2])
+		if rv.kind() != reflect.Map {
+			ip.rvPanic("reflect.Value.SetMapIndex", rv)
+		}
+		ip.mustBeExported("reflect.Value.SetMapIndex", rv)
+		ip.mustBeExported("reflect.Value.SetMapIndex", k)
+		mt := rv.T.Underlying().(*types.Map)
+		key := ip.assignTo("reflect.Value.SetMapIndex", k, mt.Key())
+		m, _ := ip.rvVal(rv).(*Map)
+		if e.T == nil {
+			ip.mapDelete(m, key)
+			return nil
+		}
+		ip.mustBeExported("reflect.Value.SetMapIndex", e)
+		val := ip.assignTo("reflect.Value.SetMapIndex", e, mt.Elem())
+		ip.mapUpdate(m, key, val)
+		return nil
+	})
+	reg("(reflect.Value).Set", func(ip *Interp, a []Value) Value {
+		rv, x := ip.asRV(a[0]), ip.asRV(a[1])
+		ip.mustBeAssignable("reflect.Value.Set", rv)
+		ip.mustBeExported("reflect.Value.Set", x)
+		val := ip.assignTo("reflect.Set", x, rv.T)
+		ip.store(rv.T, rv.P, val)
+		return nil
+	})
+	reg("(reflect.Value).Field", func(ip *Interp, a []Value) Value {
+		return ip.rvField(ip.asRV(a[0]), int(ip.concInt(a[1], 0, 64)))
+	})
+	reg("(reflect.Value).NumField", func(ip *Interp, a []Value) Value {
+		return i64(int64(ip.rvNumField(ip.asRV(a[0]))))
+	})
+	reg("(reflect.Value).FieldByName", func(ip *Interp, a []Value) Value {
+		rv := ip.asRV(a[0])
+		if rv.kind() != reflect.Struct {
+			ip.rvPanic("reflect.Value.FieldByName", rv)
+		}
+		name, ok := goStr(a[1])
+		if !ok {
+			ip.unsupported("FieldByName with symbolic name")
+		}
+		if isReflectValue(rv.T) {
+			return &RV{}
+		}
+		st := rv.T.Underlying().(*types.Struct)
+		for i := 0; i < st.NumFields(); i++ {
+			if st.Field(i).Name() == name {
+				return ip.rvField(rv, i)
+			}
+		}
+		// promoted fields through embedded structs (one level)
+		for i := 0; i < st.NumFields(); i++ {
+			f := st.Field(i)
+			if f.Embedded() {
+				if est, ok := f.Type().Underlying().(*types.Struct); ok {
+					for j := 0; j < est.NumFields(); j++ {
+						if est.Field(j).Name() == name {
+							return ip.rvField(ip.rvField(rv, i), j)
+						}
+					}
+				}
+			}
+		}
+		return &RV{}
+	})
+	reg("(reflect.Value).FieldByIndex", func(ip *Interp, a []Value) Value {
+		rv := ip.asRV(a[0])
+		idx := a[1].(Slice)
+		for _, iv := range idx.A {
+			if rv.kind() == reflect.Pointer {
+				rv = ip.rvElem(rv)
+			}
+			rv = ip.rvField(rv, int(ip.term(iv).Int()))
+		}
+		return rv
+	})
+	reg("(reflect.Value).Bool", func(ip *Interp, a []Value) Value {
+		rv := ip.asRV(a[0])
+		if rv.kind() != reflect.Bool {
+			ip.rvPanic("reflect.Value.Bool", rv)
+		}
+		return ip.rvVal(rv)
+	})
+	reg("(reflect.Value).Float", func(ip *Interp, a []Value) Value {
+		rv := ip.asRV(a[0])
+		switch rv.kind() {
+		case reflect.Float64:
+			return ip.rvVal(rv)
+		case reflect.Float32:
+			return ip.TC.FToFP(ip.term(ip.rvVal(rv)), SFP64)
+		}
+		ip.rvPanic("reflect.Value.Float", rv)
+		return nil
+	})
+	reg("(reflect.Value).Int", func(ip *Interp, a []Value) Value {
+		rv := ip.asRV(a[0])
+		switch rv.kind() {
+		case reflect.Int, reflect.Int8, reflect.Int16, reflect.Int32, reflect.Int64:
+			return ip.TC.Resize(ip.term(ip.rvVal(rv)), SBV64, true)
+		}
+		ip.rvPanic("reflect.Value.Int", rv)
+		return nil
+	})
+	reg("(reflect.Value).Uint", func(ip *Interp, a []Value) Value {
+		rv := ip.asRV(a[0])
+		switch rv.kind() {
+		case reflect.Uint, reflect.Uint8, reflect.Uint16, reflect.Uint32, reflect.Uint64, reflect.Uintptr:
+			return ip.TC.Resize(ip.term(ip.rvVal(rv)), SBV64, false)
+		}
+		ip.rvPanic("reflect.Value.Uint", rv)
+		return nil
+	})
+	reg("(reflect.Value).String", func(ip *Interp, a []Value) Value {
+		rv := ip.asRV(a[0])
+		if rv.T == nil {
+			return MkStr("<invalid Value>")
+		}
+		if rv.kind() == reflect.String {
+			return ip.rvVal(rv)
+		}
+		return MkStr("<" + typeString(rv.T) + " Value>")
+	})
+	reg("(reflect.Value).Convert", func(ip *Interp, a []Value) Value {
+		rv := ip.asRV(a[0])
+		dst := ip.rtypeOf(a[1])
+		if rv.T == nil {
+			ip.rtPanicV("reflect: call of reflect.Value.Convert on zero Value")
+		}
+		if rv.RO {
+			ip.rtPanicV("reflect: reflect.Value.Convert using value obtained using unexported field")
+		}
+		if !types.ConvertibleTo(rv.T, dst) {
+			ip.rtPanicV("reflect.Value.Convert: value of type " + typeString(rv.T) + " cannot be converted to type " + typeString(dst))
+		}
+		v := ip.rvVal(rv)
+		if _, ok := dst.Underlying().(*types.Interface); ok {
+			if _, isI := rv.T.Underlying().(*types.Interface); isI {
+				return &RV{T: dst, V: v}
+			}
+			return &RV{T: dst, V: Iface{T: rv.T, V: v}}
+		}
+		if types.Identical(rv.T.Underlying(), dst.Underlying()) {
+			return &RV{T: dst, V: v}
+		}
+		return &RV{T: dst, V: ip.conv(dst, rv.T, v)}
+	})
+	reg("(reflect.Value).Call", func(ip *Interp, a []Value) Value {
+		rv := ip.asRV(a[0])
+		if rv.kind() != reflect.Func {
+			ip.rvPanic("reflect.Value.Call", rv)
+		}
+		ip.mustBeExported("reflect.Value.Call", rv)
+		sig := rv.T.Underlying().(*types.Signature)
+		in := a[1].(Slice).A
+		fn := ip.rvVal(rv)
+		n := sig.Params().Len()
+		if sig.Variadic() {
+			if len(in) < n-1 {
+				ip.rtPanicV("reflect: Call with too few input arguments")
+			}
+		} else if len(in) != n {
+			if len(in) < n {
+				ip.rtPanicV("reflect: Call with too few input arguments")
+			}
+			ip.rtPanicV("reflect: Call with too many input arguments")
+		}
+		var args []Value
+		fixed := n
+		if sig.Variadic() {
+			fixed = n - 1
+		}
+		for i := 0; i < fixed; i++ {
+			x := ip.asRV(in[i])
+			if x.T == nil {
+				ip.rtPanicV("reflect: Call using zero Value argument")
+			}
+			ip.mustBeExported("reflect.Value.Call", x)
+			args = append(args, ip.assignTo("reflect: Call", x, sig.Params().At(i).Type()))
+		}
+		if sig.Variadic() {
+			st := sig.Params().At(n - 1).Type().(*types.Slice)
+			var rest []Value
+			for _, xv := range in[fixed:] {
+				x := ip.asRV(xv)
+				if x.T == nil {
+					ip.rtPanicV("reflect: Call using zero Value argument")
+				}
+				rest = append(rest, ip.assignTo("reflect: Call", x, st.Elem()))
+			}
+			if rest == nil {
+				args = append(args, Slice{})
+			} else {
+				args = append(args, Slice{A: rest, O: ip.newObj(st.Elem(), "reflect.Call")})
+			}
+		}
+		res := ip.CallFunc(fn, args...)
+		var out []*RV
+		switch sig.Results().Len() {
+		case 0:
+		case 1:
+			out = append(out, &RV{T: sig.Results().At(0).Type(), V: res})
+		default:
+			for i, r := range res.(Tuple) {
+				out = append(out, &RV{T: sig.Results().At(i).Type(), V: r})
+			}
+		}
+		return ip.rvSlice(out)
+	})
+
+	// constructors
+	reg("reflect.MakeSlice", func(ip *Interp, a []Value) Value {
+		t := ip.rtypeOf(a[0])
+		st, ok := t.Underlying().(*types.Slice)
+		if !ok {
+			ip.rtPanicV("reflect.MakeSlice of non-slice type")
+		}
+		n := ip.concInt(a[1], 0, 64)
+		c := ip.concInt(a[2], 0, 64)
+		if n < 0 {
+			ip.rtPanicV("reflect.MakeSlice: negative len")
+		}
+		if c < 0 {
+			ip.rtPanicV("reflect.MakeSlice: negative cap")
+		}
+		if n > c {
+			ip.rtPanicV("reflect.MakeSlice: len > cap")
+		}
+		if c > 1<<20 {
+			panic(pathEnd{Kind: "unwound", Msg: "huge reflect.MakeSlice"})
+		}
+		arr := make([]Value, c)
+		for i := range arr {
+			arr[i] = zero(st.Elem())
+		}
+		return &RV{T: t, V: Slice{A: arr[:n], O: ip.newObj(st.Elem(), "reflect.MakeSlice")}}
+	})
+	appendRV := func(ip *Interp, s *RV, xs []*RV) Value {
+		if s.kind() != reflect.Slice {
+			ip.rvPanic("reflect.Append", s)
+		}
+		ip.mustBeExported("reflect.Append", s)
+		st := s.T.Underlying().(*types.Slice)
+		old := ip.rvVal(s).(Slice)
+		na := make([]Value, 0, len(old.A)+len(xs))
+		for _, v := range old.A {
+			na = append(na, copyVal(v))
+		}
+		for _, x := range xs {
+			ip.mustBeExported("reflect.Value.Set", x)
+			na = append(na, ip.assignTo("reflect.Set", x, st.Elem()))
+		}
+		return &RV{T: s.T, V: Slice{A: na, O: ip.newObj(st.Elem(), "reflect.Append")}}
+	}
+	reg("reflect.Append", func(ip *Interp, a []Value) Value {
+		var xs []*RV
+		for _, x := range sliceArgs(a[1]) {
+			xs = append(xs, ip.asRV(x))
+		}
+		return appendRV(ip, ip.asRV(a[0]), xs)
+	})
+	reg("reflect.AppendSlice", func(ip *Interp, a []Value) Value {
+		s, t := ip.asRV(a[0]), ip.asRV(a[1])
+		if s.kind() != reflect.Slice {
+			ip.rvPanic("reflect.AppendSlice", s)
+		}
+		if t.kind() != reflect.Slice {
+			ip.rvPanic("reflect.AppendSlice", t)
+		}
+		if !types.Identical(s.T.Underlying().(*types.Slice).Elem(), t.T.Underlying().(*types.Slice).Elem()) {
+			ip.rtPanicV("reflect.AppendSlice: " + typeString(s.T) + " != " + typeString(t.T))
+		}
+		var xs []*RV
+		n := ip.rvLen("reflect.Value.Len", t)
+		for i := 0; i < n; i++ {
+			xs = append(xs, ip.rvIndex(t, i64(int64(i))))
+		}
+		return appendRV(ip, s, xs)
+	})
+	reg("reflect.Zero", func(ip *Interp, a []Value) Value {
+		t := ip.rtypeOf(a[0])
+		return &RV{T: t, V: zero(t)}
+	})
+	reg("reflect.New", func(ip *Interp, a []Value) Value {
+		t := ip.rtypeOf(a[0])
+		c := new(Value)
+		*c = zero(t)
+		return &RV{T: types.NewPointer(t), V: Ptr{C: c, O: ip.newObj(t, "reflect.New")}}
+	})
+	reg("reflect.SliceOf", func(ip *Interp, a []Value) Value { return ip.rtypeIface(types.NewSlice(ip.rtypeOf(a[0]))) })
+	reg("reflect.PtrTo", func(ip *Interp, a []Value) Value { return ip.rtypeIface(types.NewPointer(ip.rtypeOf(a[0]))) })
+	reg("reflect.PointerTo", func(ip *Interp, a []Value) Value { return ip.rtypeIface(types.NewPointer(ip.rtypeOf(a[0]))) })
+	reg("reflect.MapOf", func(ip *Interp, a []Value) Value {
+		return ip.rtypeIface(types.NewMap(ip.rtypeOf(a[0]), ip.rtypeOf(a[1])))
+	})
+	reg("reflect.DeepEqual", func(ip *Interp, a []Value) Value {
+		x, _ := a[0].(Iface)
+		y, _ := a[1].(Iface)
+		if x.T == nil || y.T == nil {
+			return Bool(x.T == nil && y.T == nil)
+		}
+		if !types.Identical(x.T, y.T) {
+			return tFalse
+		}
+		return ip.deepEqual(x.T, x.V, y.V, 0)
+	})
+	reg("(reflect.Kind).String", func(ip *Interp, a []Value) Value {
+		k := ip.term(a[0])
+		if !k.IsConst() {
+			return MkStr("<kind>")
+		}
+		return MkStr(reflect.Kind(k.C).String())
+	})
+	reg("internal/reflectlite.Swapper", func(ip *Interp, a []Value) Value {
+		iv := a[0].(Iface)
+		s, ok := iv.V.(Slice)
+		if !ok {
+			ip.rtPanicV("reflect: call of Swapper on non-slice")
+		}
+		return &Native{Name: "swapper", Fn: func(ip *Interp, args []Value) Value {
+			i, j := ip.concInt(args[0], 0, int64(len(s.A))), ip.concInt(args[1], 0, int64(len(s.A)))
+			if i < 0 || j < 0 || i >= int64(len(s.A)) || j >= int64(len(s.A)) {
+				ip.rtPanic("index out of range")
+			}
+			ip.checkWrite(s.O, "swap")
+			vi, vj := copyVal(s.A[i]), copyVal(s.A[j])
+			ip.setCell(&s.A[i], s.O, vj)
+			ip.setCell(&s.A[j], s.O, vi)
+			return nil
+		}}
+	})
+
+	// ---- reflect.Type methods (dynamic type *reflect.rtype) ----
+	rt := func(ip *Interp, v Value) types.Type {
+		r, ok := v.(RType)
+		if !ok {
+			ip.unsupported("rtype receiver %T", v)
+		}
+		return r.T
+	}
+	reg("(*reflect.rtype).Kind", func(ip *Interp, a []Value) Value { return kindTerm(kindOf(rt(ip, a[0]))) })
+	reg("(*reflect.rtype).String", func(ip *Interp, a []Value) Value { return MkStr(typeString(rt(ip, a[0]))) })
+	reg("(*reflect.rtype).Name", func(ip *Interp, a []Value) Value {
+		if n, ok := types.Unalias(rt(ip, a[0])).(*types.Named); ok {
+			return MkStr(n.Obj().Name())
+		}
+		if b, ok := rt(ip, a[0]).(*types.Basic); ok {
+			return MkStr(b.Name())
+		}
+		return MkStr("")
+	})
+	reg("(*reflect.rtype).Elem", func(ip *Interp, a []Value) Value {
+		switch u := rt(ip, a[0]).Underlying().(type) {
+		case *types.Pointer:
+			return ip.rtypeIface(u.Elem())
+		case *types.Slice:
+			return ip.rtypeIface(u.Elem())
+		case *types.Array:
+			return ip.rtypeIface(u.Elem())
+		case *types.Map:
+			return ip.rtypeIface(u.Elem())
+		case *types.Chan:
+			return ip.rtypeIface(u.Elem())
+		}
+		ip.rtPanicV("reflect: Elem of invalid type " + typeString(rt(ip, a[0])))
+		return nil
+	})
+	reg("(*reflect.rtype).Key", func(ip *Interp, a []Value) Value {
+		if u, ok := rt(ip, a[0]).Underlying().(*types.Map); ok {
+			return ip.rtypeIface(u.Key())
+		}
+		ip.rtPanicV("reflect: Key of non-map type")
+		return nil
+	})
+	sigOf := func(ip *Interp, v Value, m string) *types.Signature {
+		s, ok := rt(ip, v).Underlying().(*types.Signature)
+		if !ok {
+			ip.rtPanicV("reflect: " + m + " of non-func type " + typeString(rt(ip, v)))
+		}
+		return s
+	}
+	reg("(*reflect.rtype).NumIn", func(ip *Interp, a []Value) Value { return i64(int64(sigOf(ip, a[0], "NumIn").Params().Len())) })
+	reg("(*reflect.rtype).NumOut", func(ip *Interp, a []Value) Value {
+		return i64(int64(sigOf(ip, a[0], "NumOut").Results().Len()))
+	})
+	reg("(*reflect.rtype).In", func(ip *Interp, a []Value) Value {
+		s := sigOf(ip, a[0], "In")
+		i := int(ip.concInt(a[1], 0, 64))
+		if i < 0 || i >= s.Params().Len() {
+			ip.rtPanic("index out of range")
+		}
+		return ip.rtypeIface(s.Params().At(i).Type())
+	})
+	reg("(*reflect.rtype).Out", func(ip *Interp, a []Value) Value {
+		s := sigOf(ip, a[0], "Out")
+		i := int(ip.concInt(a[1], 0, 64))
+		if i < 0 || i >= s.Results().Len() {
+			ip.rtPanic("index out of range")
+		}
+		return ip.rtypeIface(s.Results().At(i).Type())
+	})
+	reg("(*reflect.rtype).IsVariadic", func(ip *Interp, a []Value) Value { return Bool(sigOf(ip, a[0], "IsVariadic").Variadic()) })
+	reg("(*reflect.rtype).NumField", func(ip *Interp, a []Value) Value {
+		st, ok := rt(ip, a[0]).Underlying().(*types.Struct)
+		if !ok {
+			ip.rtPanicV("reflect: NumField of non-struct type " + typeString(rt(ip, a[0])))
+		}
+		return i64(int64(st.NumFields()))
+	})
+	reg("(*reflect.rtype).Field", func(ip *Interp, a []Value) Value {
+		st, ok := rt(ip, a[0]).Underlying().(*types.Struct)
+		if !ok {
+			ip.rtPanicV("reflect: Field of non-struct type " + typeString(rt(ip, a[0])))
+		}
+		i := int(ip.concInt(a[1], 0, 64))
+		if i < 0 || i >= st.NumFields() {
+			ip.rtPanicV("reflect: Field index out of bounds")
+		}
+		f := st.Field(i)
+		pkgPath := ""
+		if !f.Exported() && f.Pkg() != nil {
+			pkgPath = f.Pkg().Path()
+		}
+		// reflect.StructField{Name, PkgPath, Type, Tag, Offset, Index, Anonymous}
+		return Struct{MkStr(f.Name()), MkStr(pkgPath), ip.rtypeIface(f.Type()), MkStr(st.Tag(i)), Const(SBV64, 0),
+			Slice{A: []Value{i64(int64(i))}, O: ip.newObj(types.Typ[types.Int], "StructField")}, Bool(f.Embedded())}
+	})
+	reg("(*reflect.rtype).Implements", func(ip *Interp, a []Value) Value {
+		u := ip.rtypeOf(a[1])
+		iface, ok := u.Underlying().(*types.Interface)
+		if !ok {
+			ip.rtPanicV("reflect: non-interface type passed to Type.Implements")
+		}
+		return Bool(ip.implements(rt(ip, a[0]), iface))
+	})
+	reg("(*reflect.rtype).AssignableTo", func(ip *Interp, a []Value) Value {
+		return Bool(types.AssignableTo(rt(ip, a[0]), ip.rtypeOf(a[1])))
+	})
+	reg("(*reflect.rtype).ConvertibleTo", func(ip *Interp, a []Value) Value {
+		return Bool(types.ConvertibleTo(rt(ip, a[0]), ip.rtypeOf(a[1])))
+	})
+	reg("(*reflect.rtype).Comparable", func(ip *Interp, a []Value) Value { return Bool(types.Comparable(rt(ip, a[0]))) })
+	reg("(*reflect.rtype).PkgPath", func(ip *Interp, a []Value) Value {
+		if n, ok := types.Unalias(rt(ip, a[0])).(*types.Named); ok && n.Obj().Pkg() != nil {
+			return MkStr(n.Obj().Pkg().Path())
+		}
+		return MkStr("")
+	})
+	_ = fmt.Sprint
 }
